@@ -147,7 +147,7 @@ def run(a):
                      "its allowed sets) / clone / fork / merge / rst / rstmax / cancel / kill, correspondence ops st (full accounting state) and "
                      "table, and property ops p-last / p-budget whose verdict each side computes on its own values (the Go side judges budgets on its own "
                      "ledger of observed sleeps and cross-checks the implementation's counters against it); directed families: fork-join, excluded-limit, "
-                     "excluded-then-reset-then-exhaust, long same-kind runs (80 / 130 steps per table row, budget huge or off); "
+                     "excluded-then-reset-then-exhaust, clone/fork interleavings (parent and clones / forks take turns on kinds of their own until each is exhausted), long same-kind runs (80 / 130 steps per table row, budget huge or off); "
                      "case length <= 40 (quick) / <= 400 (thorough); distinct = distinct op lines")
     c.assumptions = ["Go int arithmetic is modelled by unbounded Int (sums stay far below 2^63 on the explored inputs)",
                      "expo's float64 arithmetic is modelled by min(cap, base*2^n) on integers (exact below 2^53)",
